@@ -1,173 +1,52 @@
-(* A finer guard for the constant environment of Lang/ConstEnv.v, and function definitions.
+(* Function definitions on top of Lang/ConstEnv.v.
 
-   ConstEnv.tblock is the transpiler: flow-insensitive, child dicts discarded, list objects shared.  Its ghost flag
-   [is_fresh] excludes every program that writes a name with a known transpile-time value inside an if / while / for
-   body - although such a write is harmless as long as no fold site reads the name afterwards, and although the
-   sibling branches of an if / elif / else chain are parsed from a per-branch copy of the snapshot, so that a fold
-   site in a LATER branch must not see what an EARLIER branch assigned.
+   Until the repair of the stale-fold findings this file also held a flow-sensitive GHOST environment that the
+   (flow-insensitive) transpiler model was run against (cstep / flow_ok): each branch from the snapshot with a private
+   store, names written in a block unknown afterwards, loop bodies processed with the names they write already unknown.
+   The repaired transpiler does exactly that itself (ConstEnv.tstep), so the ghost and its guard are gone: the
+   simulation theorem of ConstEnv (C03_env_fresh_partial) now covers what C03_flow_partial covered, and more.
 
-   Here the transpiler is run in lockstep with a second, flow-sensitive environment (ge, gst) - the bindings a sound
-   transpiler may rely on at this program point on EVERY path:
-     * simple statements update it exactly like the transpiler updates its own (the same function tsimple);
-     * every branch of an if starts from the ghost environment before the if, with a private store; after the if
-       every name written in any branch is unknown;
-     * a loop body is processed with every name the body writes (and the loop variable) already unknown, and they
-       stay unknown after the loop.
-   The flag of [cblock] says: at every fold site (len(name), flash_pattern(name), glyph rows) the transpiler baked in
-   exactly what the flow-sensitive environment justifies (the same constant, or both left it to run time), and the
-   simple-statement side conditions of ConstEnv hold for the ghost run.  [flow_ok] is that flag for a whole script.
-
-   Function definitions (_parse_function): the body is parsed ONCE, at the def, in a copy of the module environment
-   of that moment in which every parameter is bound to a run-time marker; it runs at the call, with the parameters
-   bound to the argument values, in the module state of that later moment.  [cdef] / [firmware_call_outputs] /
-   [python_call_outputs] model a module prefix, a def, the module statements between the def and a call, and the
-   call.  No proofs in this file. *)
+   Function definitions (_parse_function): the body is parsed ONCE, at the def, in a copy of the module environment of
+   that moment (tracked lists copied too) in which
+     * every name the SCRIPT binds or mutates at more than one site (ctx["_rebound_names"], computed from the whole
+       source before parsing starts) is unknown - the body runs at the calls, not at the def, and only a name with a
+       single binding site still has at the call the value known at the def -, and
+     * every parameter is bound to a run-time marker;
+   it runs at the call, with the parameters bound to the argument values, in the module state of that later moment.
+   What the body itself writes (parameters excepted) changes whenever the function is called: from the def on such a
+   name is never known at module level again (ctx["_function_written"]: forgotten at the def and after every later
+   module-level assignment - the parameter [vol] of ConstEnv.tstep).
+   [tdef] / [firmware_call_outputs] / [python_call_outputs] model a module prefix, a def, the module statements between
+   the def and a call, the call, and the module statements after it ([post]: they only matter through _rebound_names).
+   No proofs in this file. *)
 From Coq Require Import ZArith QArith List Bool.
 From RV Require Import Base.Wire Base.Text Lang.PyAst Lang.PySem Gen.SafeCasts Lang.ConstEval Lang.ConstEnv.
 Import ListNotations.
 Open Scope Z_scope.
-
-(* structural equality on the values a fold site bakes in (ints, bools, floats, flat lists / tuples of them) *)
-Definition scalar_eqb (a b : pval) : bool :=
-  match a, b with
-  | VInt x, VInt y => Z.eqb x y
-  | VBool x, VBool y => Bool.eqb x y
-  | VFloat x, VFloat y => Z.eqb (Qnum x) (Qnum y) && Pos.eqb (Qden x) (Qden y)
-  | _, _ => false
-  end.
-Fixpoint scalars_eqb (l m : list pval) : bool :=
-  match l, m with
-  | [], [] => true
-  | a :: l', b :: m' => scalar_eqb a b && scalars_eqb l' m'
-  | _, _ => false
-  end.
-Definition emit_eqb (a b : pval) : bool :=
-  match a, b with
-  | VList l, VList m => scalars_eqb l m
-  | VTuple l, VTuple m => scalars_eqb l m
-  | _, _ => scalar_eqb a b
-  end.
-
-(* the residuals of one simple statement on the two sides: the statement itself, or one baked-in constant *)
-Definition same_res (r g : list stmt) : bool :=
-  match r, g with
-  | [SEmit a], [SEmit b] => emit_eqb a b
-  | [SEmit _], _ => false
-  | _, [SEmit _] => false
-  | _, _ => true
-  end.
-
-Definition mark_all (ws : list ident) (te : tenv) : tenv := fold_right (fun x acc => (x, TMark) :: acc) te ws.
-
-(* len(name) INSIDE a translated expression.  ConstEnv.tsimple keeps the right-hand side of an assignment / augmented
-   assignment and the argument of append / remove symbolic (residual = the statement itself); the real translation
-   (_to_c_expr) folds every len(name) sub-term of such an expression through the constant environment, exactly like
-   the statement-level mon.write(len(name)).  Where the environment is right the two coincide (inside is_fresh it
-   always is); for the flow guard each of these sub-terms is one more fold site: the transpiler's environment and the
-   ghost environment must give it the same length, or both leave it to run time. *)
-Fixpoint len_names (e : pexpr) : list ident :=
-  let fix any (l : list pexpr) : list ident := match l with [] => [] | x :: r => len_names x ++ any r end in
-  match e with
-  | EBin _ a b => len_names a ++ len_names b
-  | EUn _ a => len_names a
-  | EBoolOp _ vs => any vs
-  | ECompare l _ rs => len_names l ++ any rs
-  | EIfExp c a b => len_names c ++ len_names a ++ len_names b
-  | EJoined ps => any ps
-  | EFmt _ v => len_names v
-  | ECall f args _ =>
-      (if text_eqb f n_len then match args with [EName x] => [x] | _ => [] end else []) ++ any args
-  | EMethod o _ args _ => len_names o ++ any args
-  | EList es | ETuple es => any es
-  | ESubscript v i => len_names v ++ len_names i
-  | _ => []
-  end.
-Definition optz_eqb (a b : option Z) : bool :=
-  match a, b with Some x, Some y => Z.eqb x y | None, None => true | _, _ => false end.
-Definition lens_agree (c1 c2 : cenv) (e : pexpr) : bool :=
-  forallb (fun x => optz_eqb (literal_length c1 (EName x)) (literal_length c2 (EName x))) (len_names e).
-Definition stmt_exprs (s : stmt) : list pexpr :=
-  match s with SAssign _ e | SAppend _ e | SRemove _ e | SAug _ _ e => [e] | _ => [] end.
-
-(* transpiler dict, transpiler store, residual, ghost dict, ghost store, flag *)
-Definition fres := option (tenv * store * list stmt * tenv * store * bool).
-
-Definition csimple (s : stmt) (te : tenv) (st : store) (ge : tenv) (gst : store) : fres :=
-  match tsimple s te st with
-  | Some (te1, st1, r1, _) =>
-      match tsimple s ge gst with
-      | Some (ge1, gst1, g1, gf) =>
-          Some (te1, st1, r1, ge1, gst1,
-                gf && forallb (lens_agree (view st te) (view gst ge)) (stmt_exprs s) && same_res r1 g1)
-      | None => Some (te1, st1, r1, ge, gst, false)        (* accepted only because of a binding that may be stale *)
-      end
-  | None => None
-  end.
-
-Fixpoint cstep (s : stmt) (te : tenv) (st : store) (ge : tenv) (gst : store) {struct s} : fres :=
-  let fix cblock (b : list stmt) (te : tenv) (st : store) (ge : tenv) (gst : store) {struct b} : fres :=
-    match b with
-    | [] => Some (te, st, [], ge, gst, true)
-    | s :: r =>
-        match cstep s te st ge gst with
-        | Some (te1, st1, r1, ge1, gst1, f1) =>
-            match cblock r te1 st1 ge1 gst1 with
-            | Some (te2, st2, r2, ge2, gst2, f2) => Some (te2, st2, r1 ++ r2, ge2, gst2, f1 && f2)
-            | None => None end
-        | None => None end
-    end in
-  match s with
-  | SIf body orelse =>
-      match cblock body te st ge gst with
-      | Some (te1, st1, r1, _, _, f1) =>
-          match cblock orelse te st1 ge gst with            (* transpiler: the snapshot, but the shared store *)
-          | Some (te2, st2, r2, _, _, f2) =>
-              Some (promote (promote te te1 []) te2 [], st2, [SIf r1 r2], mark_all (writes s) ge, gst, f1 && f2)
-          | None => None end
-      | None => None end
-  | SWhile body =>
-      let gh := mark_all (writes s) ge in
-      match cblock body te st gh gst with
-      | Some (te1, st1, r1, _, _, f1) => Some (promote te te1 [], st1, [SWhile r1], gh, gst, f1)
-      | None => None end
-  | SFor x body =>
-      let gh := mark_all (writes s) ge in
-      match cblock body ((x, TMark) :: te) st gh gst with
-      | Some (te1, st1, r1, _, _, f1) =>
-          Some (promote te te1 [x], st1, [SFor x r1], gh, gst, f1 && negb (tmem x safe_name_references))
-      | None => None end
-  | _ => csimple s te st ge gst
-  end.
-
-Definition cblock := fix cblock (b : list stmt) (te : tenv) (st : store) (ge : tenv) (gst : store) {struct b} : fres :=
-  match b with
-  | [] => Some (te, st, [], ge, gst, true)
-  | s :: r =>
-      match cstep s te st ge gst with
-      | Some (te1, st1, r1, ge1, gst1, f1) =>
-          match cblock r te1 st1 ge1 gst1 with
-          | Some (te2, st2, r2, ge2, gst2, f2) => Some (te2, st2, r1 ++ r2, ge2, gst2, f1 && f2)
-          | None => None end
-      | None => None end
-  end.
-
-Definition flow_ok (p : list stmt) : bool :=
-  match cblock p [] [] [] [] with Some (_, _, _, _, _, f) => f | None => false end.
 
 (* ------------------------------------------------------------------ *)
 (* def f(ps): body   at module level after [prefix]; [mid] = the module statements between the def and the call;
    the call f(vals).  Function bodies here contain no calls; they may contain if / while / for. *)
 Definition bind_params (ps : list ident) (vals : list pval) (rho : env) : env := combine ps vals ++ rho.
 
-(* what the transpiler does: prefix, then the body in a copy of the dict with the parameters as markers (the list
-   objects are shared: the store is threaded), then mid in the parent dict *)
-Definition tdef (prefix : list stmt) (ps : list ident) (body mid : list stmt)
+(* [n for n in write_sites if write_sites.count(n) > 1], as a set *)
+Fixpoint dups (l : list ident) : list ident :=
+  match l with [] => [] | x :: r => if tmem x r then x :: dups r else dups r end.
+Definition minus (l ps : list ident) : list ident := filter (fun x => negb (tmem x ps)) l.
+Definition rebound_names (prefix body mid post : list stmt) : list ident :=
+  dups (writes_block prefix ++ writes_block body ++ writes_block mid ++ writes_block post).
+Definition fn_written (ps : list ident) (body : list stmt) : list ident := minus (writes_block body) ps.
+
+(* what the transpiler does: prefix; then the body in a private copy of the dict and of the tracked lists, with the
+   rebound names forgotten and the parameters as markers (scope = "function": no volatile names inside the body);
+   then mid in the parent dict, where the names the body writes are volatile from now on *)
+Definition tdef (prefix : list stmt) (ps : list ident) (body mid post : list stmt)
   : option (list stmt * list stmt * list stmt) :=
-  match tblock prefix [] [] with
+  match tblock [] prefix [] [] with
   | Some (te, st, rp, _) =>
-      match tblock body (mark_all ps te) st with
-      | Some (_, stb, rb, _) =>
-          match tblock mid te stb with
+      match tblock [] body (mark_all ps (forget (rebound_names prefix body mid post) te)) st with
+      | Some (_, _, rb, _) =>
+          match tblock (fn_written ps body) mid (forget (fn_written ps body) te) st with
           | Some (_, _, rm, _) => Some (rp, rb, rm)
           | None => None end
       | None => None end
@@ -185,21 +64,21 @@ Definition run_call (pm body : list stmt) (ps : list ident) (vals : list pval) (
 (* (outputs of the module statements before the call, outputs of the call) *)
 Definition python_call_outputs (prefix : list stmt) (ps : list ident) (body mid : list stmt) (vals : list pval) (orc : list nat) :=
   run_call (prefix ++ mid) body ps vals orc.
-Definition firmware_call_outputs (prefix : list stmt) (ps : list ident) (body mid : list stmt) (vals : list pval) (orc : list nat) :=
-  match tdef prefix ps body mid with
+Definition firmware_call_outputs (prefix : list stmt) (ps : list ident) (body mid post : list stmt) (vals : list pval) (orc : list nat) :=
+  match tdef prefix ps body mid post with
   | Some (rp, rb, rm) => run_call (rp ++ rm) rb ps vals orc
   | None => None end.
 
-(* the guard: the flow guard of prefix and mid; the body is justified by the bindings known at the def that no
-   statement between the def and the call writes, the parameters being unknown; no parameter is named like a
-   builtin the evaluator interprets *)
-Definition def_ok (prefix : list stmt) (ps : list ident) (body mid : list stmt) : bool :=
-  match cblock prefix [] [] [] [] with
-  | Some (te, st, _, ge, gst, fp) =>
-      match cblock body (mark_all ps te) st (mark_all (ps ++ writes_block mid) ge) gst with
-      | Some (_, stb, _, _, _, fb) =>
-          match cblock mid te stb ge gst with
-          | Some (_, _, _, _, _, fm) => fp && fb && fm && no_safe ps
+(* the guard: the simple-statement side conditions of ConstEnv (flags of the three blocks); no parameter is named like a
+   builtin the evaluator interprets.  Nothing about which names the module re-assigns: the repaired transpiler does not
+   fold those inside the body *)
+Definition def_ok (prefix : list stmt) (ps : list ident) (body mid post : list stmt) : bool :=
+  match tblock [] prefix [] [] with
+  | Some (te, st, _, fp) =>
+      match tblock [] body (mark_all ps (forget (rebound_names prefix body mid post) te)) st with
+      | Some (_, _, _, fb) =>
+          match tblock (fn_written ps body) mid (forget (fn_written ps body) te) st with
+          | Some (_, _, _, fm) => fp && fb && fm && no_safe ps
           | None => false end
       | None => false end
   | None => false end.
